@@ -410,7 +410,7 @@ def race_premise(run):
     if rh:
         env = dict(R.ENV, GORACE="halt_on_error=1 exitcode=66")
         for sd in SEEDS(run, 2):
-            R.native_run(run, "race_s%d" % sd, [rh, "race", "seed=%d" % sd, "rounds=%d" % Q(run, 3, 8), "ms=%d" % Q(run, 350, 1000)],
+            R.native_run(run, "race_s%d" % sd, [rh, "race", "seed=%d" % sd, "rounds=%d" % Q(run, 3, 8), "ms=%d" % Q(run, 350, 1000), "minops=%d" % Q(run, 350, 1000)],
                          ["DATA RACE", "BAD", "panic:", "fatal error"], env=env, timeout=3000)
 
 
@@ -495,7 +495,7 @@ def c14(run):
         env = dict(R.ENV, GORACE="halt_on_error=1 exitcode=66")
         seeds = SEEDS(run, 4)
         for sd in seeds:
-            R.native_run(run, "race_s%d" % sd, [rh, "race", "seed=%d" % sd, "rounds=%d" % Q(run, 3, 12), "ms=%d" % Q(run, 350, 1500)],
+            R.native_run(run, "race_s%d" % sd, [rh, "race", "seed=%d" % sd, "rounds=%d" % Q(run, 3, 12), "ms=%d" % Q(run, 350, 1500), "minops=%d" % Q(run, 350, 1500)],
                          ["DATA RACE", "BAD", "panic:", "fatal error"], env=env, timeout=3000)
     return R.finish(run, GAPS.get("C14", []))
 
